@@ -45,6 +45,10 @@ pub struct ConcCase {
     pub n_lists: usize,
     pub threads: Vec<Vec<TokOp>>,
     pub schedule: Schedule,
+    /// what happens to the resource files (char.def, unk.def, rewrite.def) once the shared dictionary is loaded:
+    /// "keep" | "remove" | "garbage". A loaded dictionary must not look at them again.
+    #[serde(default)]
+    pub resources_after_load: String,
 }
 
 #[derive(Clone, Debug, PartialEq, Serialize, Deserialize)]
@@ -441,7 +445,8 @@ impl Engine for ConcSim {
             0 | 1 => Schedule::Random { seed: rng.next_u64() },
             _ => Schedule::Pct { seed: rng.next_u64(), depth: 1 + rng.below(3) },
         };
-        ConcCase { world, n_lists, threads, schedule }
+        let resources_after_load = ["keep", "keep", "keep", "remove", "remove", "garbage"][rng.below(6)].to_string();
+        ConcCase { world, n_lists, threads, schedule, resources_after_load }
     }
 
     fn execute(&self, case: &ConcCase, stats: &mut Stats, work: &Path) -> Option<Violation> {
@@ -604,6 +609,22 @@ pub fn execute(case: &ConcCase, stats: &mut Stats, work: &Path) -> Option<Violat
     }
     crate::harness::set_phase(0);
     let before = dict_digest(&shared);
+    // environment fault: the files the dictionary was configured from disappear / turn into garbage after loading
+    match case.resources_after_load.as_str() {
+        "remove" => {
+            for f in ["char.def", "unk.def", "rewrite.def"] {
+                let _ = std::fs::remove_file(world.dir.join(f));
+            }
+            stats.inc("fault.resources_removed_after_load");
+        }
+        "garbage" => {
+            for f in ["char.def", "unk.def", "rewrite.def"] {
+                let _ = std::fs::write(world.dir.join(f), b"\xff\xfe\x00 not a definition file\n0x3041 .. GARBAGE\n");
+            }
+            stats.inc("fault.resources_garbled_after_load");
+        }
+        _ => {}
+    }
 
     // 2. scheduled concurrent execution on the shared dictionary
     let baton = Arc::new(Baton::new(nt));
@@ -646,10 +667,18 @@ pub fn execute(case: &ConcCase, stats: &mut Stats, work: &Path) -> Option<Violat
     change_points.sort();
     let mut step: u64 = 0;
     let mut deadlock = false;
+    let mut spinning = false;
+    let ptids: Vec<libc::pthread_t> = {
+        use std::os::unix::thread::JoinHandleExt;
+        handles.iter().map(|h| h.as_pthread_t()).collect()
+    };
     loop {
         let mut g = baton.m.lock().unwrap();
         // wait until nobody holds the baton and every live thread is parked
         let t0 = crate::clock::real_now();
+        // CPU time of the thread that holds the baton: a spinning thread is recognised by what it burns,
+        // a blocked one by the wall clock
+        let holder_cpu0 = last.and_then(|l| crate::harness::thread_cpu_ns(ptids[l]));
         loop {
             let quiescent = g.granted.is_none() && (0..nt).all(|t| g.parked[t] || g.finished[t]);
             if quiescent {
@@ -657,6 +686,15 @@ pub fn execute(case: &ConcCase, stats: &mut Stats, work: &Path) -> Option<Violat
             }
             let (g2, _to) = baton.cv.wait_timeout(g, std::time::Duration::from_millis(200)).unwrap();
             g = g2;
+            if let (Some(l), Some(c0)) = (last, holder_cpu0) {
+                if let Some(c1) = crate::harness::thread_cpu_ns(ptids[l]) {
+                    if c1.saturating_sub(c0) > 20_000_000_000 {
+                        deadlock = true;
+                        spinning = true;
+                        break;
+                    }
+                }
+            }
             if crate::clock::real_now() - t0 > 60.0 {
                 deadlock = true;
                 break;
@@ -710,7 +748,14 @@ pub fn execute(case: &ConcCase, stats: &mut Stats, work: &Path) -> Option<Violat
     }
     if deadlock {
         // threads are stuck; we cannot join them. Report and let the process exit path handle it.
-        return viol("no-progress", "baton-wait-timeout", 0, json!({"schedule": choices, "note": "a scheduled thread neither reached a sim point nor finished within 60 s"}));
+        let v = Violation {
+            class: "no-progress".into(),
+            site: if spinning { "thread-spins".into() } else { "baton-wait-timeout".into() },
+            op_index: 0,
+            detail: json!({"schedule": choices, "resources_after_load": case.resources_after_load,
+                           "note": "a scheduled thread neither reached a sim point nor finished (20 s of its own CPU time / 60 s wall)"}),
+        };
+        crate::harness::abort_batch(v);
     }
     for h in handles {
         let _ = h.join();
